@@ -170,15 +170,16 @@ def make_plan(seed: int, tier: str, index: int) -> dict[str, Any]:
             ])
         access.append(a)
     n_clients = p.choice([1, 2, 2, 3, 3, 4])
-    if big_run:
-        n_clients = 1
     if sub == "long":
         # long histories without retained results: object ids get reused, memo tables fill up
         n_clients = p.choice([1, 1, 2])
+    if big_run:
+        n_clients = 1
     clients = []
     for ci in range(n_clients):
         ops = []
-        for _ in range(p.randint(1, 6) if sub != "long" else p.randint(20, 60) // n_clients):
+        for _ in range(p.randint(1, 6) if sub != "long" else
+                       (p.randint(20, 60) // n_clients if not big_run else p.randint(4, 8))):
             c = p.choice(corpus)
             op: dict[str, Any] = {"op": "parse", "text": c["id"], **access[c["id"]]}
             op["select"] = _gen_selection(p, c["headers"]) if c["kind"] == "ok" else None
